@@ -10,6 +10,9 @@ CLAUSE = ("every network / network-id / programme-id / aspect announcement (vbi_
           "NETWORK_ID announcement the cycle leaves 1 on every path; wherever the stored last-received value is replaced, the "
           "cycle / repeat counter is re-armed and no announcement is reachable; vbi_chsw_reset clears the pending "
           "channel-switch countdown on every path; the countdown-driven reset is dominated by the countdown reaching zero.")
+CLAUSE = CLAUSE + (" (RF-NEG) in the announcing decoders (parse_bsd, parse_8_30, vbi_decode_vps, vbi_decode_wss_625) no Hamming / "
+                   "parity decode result reaches the stored last-received id (the value the debounce compares) before a `< 0` "
+                   "test of it or of an OR-accumulation of it - an uncorrectable byte never takes part in 'received twice'.")
 NOT_DECIDED = ("that the event carries exactly the transmitted values (value fidelity), exactly-one event under interleaved "
                "carriers, the XDS carrier's missing `id != nuid` test (XDS is checksum protected and not among the four "
                "carriers the statement quantifies over; recorded as a note).")
@@ -279,6 +282,7 @@ def run(ctx, run):
                       "network id and cache are dropped again (a second NETWORK event)", "%s:%d" % (f.file, f.line),
                       witness={"function": "vbi_chsw_reset"})
 
+    _decode_discipline(ctx, run)
     run.floor("NETWORK_ID announcement sites", n_sites["NETWORK_ID"], 4)
     run.floor("NETWORK announcement sites", n_sites["NETWORK"], 4)
     run.floor("vbi_chsw_reset call sites", n_sites["chsw"], 6)
@@ -394,3 +398,33 @@ def _must_pass_from_entry(f, pred):
         for s, _ in f.edges(n):
             st.append(s)
     return True
+
+
+def _decode_discipline(ctx, run):
+    """Uncorrectable bytes must not become (part of) a compared / announced id: two damaged
+    receptions would otherwise collapse to the same bogus id and pass the debounce."""
+    from .. import neg
+    P = ctx.prog
+    n = 0
+    for name, unit in (("parse_bsd", "src/packet.c"), ("parse_8_30", "src/packet.c"), ("vbi_decode_vps", "src/packet.c"),
+                       ("vbi_decode_wss_625", "src/wss.c")):
+        f = P.need(name, unit)
+        a = neg.Neg(ctx, f).run()
+        run.touch(f)
+        n += a.n_sources
+        bad = False
+        for eid, lhs, t in a.persistent_stores():
+            if not t:
+                continue
+            bad = True
+            run.violation("RF-NEG", "RF-NEG:%s:store" % name, "`%s` stores a value built from a decode result that was not tested "
+                          "for failure (%s): an uncorrectable byte becomes part of the id the debounce compares and announces"
+                          % (ex.pretty(f, eid)[:80], a.describe(t)[:200]), ex.loc(f, eid), witness={"function": name})
+        for eid, vname in neg.unexamined(a):
+            bad = True
+            run.violation("RF-NEG", "RF-NEG:%s:unexamined:%s" % (name, vname), "the value decoded by `%s` is used without being "
+                          "examined for a decoding error" % ex.pretty(f, eid)[:70], ex.loc(f, eid))
+        if not bad and a.n_sources:
+            run.holds("RF-NEG", "RF-NEG:%s" % name, "%d decode call site(s): every stored id is behind the `< 0` test of its bytes"
+                      % a.n_sources, "%s:%d" % (f.file, f.line))
+    run.floor("decode call sites in the announcing decoders", n, 2)
